@@ -2,7 +2,8 @@
 export GOFLAGS=-mod=mod GOPROXY=off
 export VERIF_DIR=${VERIF:-/verif}
 VERIF=${VERIF:-/verif}
-REPO=/repo
+REPO=${VERIF_REPO:-/repo}
+export VERIF_REPO=$REPO
 BUILD=$VERIF/.build
 mkdir -p "$BUILD" "$VERIF/evidence" "$VERIF/replays"
 
